@@ -32,6 +32,10 @@ fn shapes(rng: &mut Xoshiro256PlusPlus, n: usize) -> Vec<(&'static str, Vec<f64>
     v.push(("nearly-sorted", (0..n).map(|i| i as f64 + 3.0 * u(rng)).collect()));
     v.push(("tiny-scale", (0..n).map(|_| 1e-12 * (u(rng) - 0.5)).collect()));
     v.push(("offset", (0..n).map(|_| 1e3 + u(rng)).collect()));
+    // the far ends of the exponent range (scaling by a power of two is exact, so P-square must
+    // produce exactly the scaled heights): products of two height differences underflow / overflow
+    v.push(("uniform * 2^-600", (0..n).map(|_| (u(rng) * 100.0 - 50.0) * 2f64.powi(-600)).collect()));
+    v.push(("uniform * 2^600", (0..n).map(|_| (u(rng) * 100.0 - 50.0) * 2f64.powi(600)).collect()));
     v
 }
 
@@ -50,7 +54,7 @@ pub fn direct_qlong(prop: &str, seed: u64, max_n: usize, rep: &mut Report) {
             }
         }
     }
-    rep.sample(json!({"family": "qlong", "p": ps, "n": max_n, "shapes": 11}));
+    rep.sample(json!({"family": "qlong", "p": ps, "n": max_n, "shapes": 13}));
 }
 
 fn run(prop: &str, shape: &str, p: f64, xs: &[f64], seed: u64, rep: &mut Report) {
